@@ -390,6 +390,9 @@ def hexseg_case(draw, tier):
         dl = []
     elif drop == "some":
         dl = sorted(set(draw(st.lists(st.integers(0, nseg - 1), min_size=1, max_size=4))))
+        if draw(st.booleans()):          # whole rings / runs of consecutive segments
+            a = draw(st.integers(0, nseg - 2))
+            dl = list(range(a, draw(st.integers(a + 1, min(nseg - 1, a + 12))) + 1))
     else:
         dl = [1, nseg + 3]
     return {"rings": rings, "radius": draw(gen.finite(5.0, 12.0)),
@@ -411,9 +414,13 @@ def hex_segments(case, ctx):
     ctx.nontrivial_if(k >= 1 and ndrop < nseg)
     if ndrop == nseg:
         raise Skip("all_dropped")
-    with lentil_call("C20.hexseg", "hex_segments"):
+    # the drop list in any list-like container (membership is all that matters)
+    drop_arg, dform = gen.as_container(case["drop"], k + len(case["drop"]) + case["pad"] + int(case["rotate"]) * 3,
+                                       ordered=False)
+    ctx.tag("drop_as:" + dform)
+    with lentil_call("C20.hexseg", f"hex_segments(drop as {dform})"):
         m = lentil.hex_segments(k, r, gap, rotate=case["rotate"], antialias=case["antialias"], flatten=False,
-                                pad=case["pad"], drop=tuple(case["drop"]))
+                                pad=case["pad"], drop=drop_arg)
     if m.ndim != 3 or m.shape[0] != nseg - ndrop:
         raise Violation("C20.hexseg.count", f"{m.shape[0] if m.ndim == 3 else m.shape} segments, expected "
                                             f"1+3k(k+1)-dropped = {nseg - ndrop}")
